@@ -134,3 +134,339 @@ spec.contract(
 LEMMAS = []
 FUNCTIONS = ['GeoAssignments.__init__',
              'GeoEligibility.get_eligible_assignments']
+
+# ---------------------------------------------------------------------------
+# GeoEligibility.__init__ (C16): the acceptance predicate.  The raw input
+# frame is a finite sequence of rows (after reset_index): GEOAT(i) the geo
+# value of row i, VALAT(c, i) the cell of value column c; COLS the column
+# names.  What the pandas calls return is stated in the ledger below; what is
+# proved is which frames are accepted and what table is stored.
+
+from mmverif.engine import frame_ledger as _fl                      # noqa
+from mmverif.engine.lib import ASSUMPTIONS as _ASSUME               # noqa
+from mmverif.engine.pandas_ledger import VBound as _VBound          # noqa
+
+RawE = sort_named('RawElig')
+NROWS = z3.Function('RE_NROWS', RawE, I)
+GEOAT = z3.Function('RE_GEOAT', RawE, I, I)
+VALAT = z3.Function('RE_VALAT', RawE, I, I, I)
+COLS = z3.Function('RE_COLS', RawE, z3.SetSort(I))
+DUPCOL = z3.Function('RE_DUPCOL', RawE, z3.BoolSort())
+VCOLS = ('control', 'treatment', 'exclude')
+
+_ASSUME.extend([
+    'pandas (GeoEligibility.__init__): copy / reset_index / astype(str) / '
+    '.loc[:, names] keep the rows; "x in df.columns" and set(df.columns) '
+    'are membership in the column names; columns.duplicated() flags a '
+    'repeated column name; df[c].duplicated() flags the rows whose value '
+    'occurred in an earlier row; set(df[c]) is the set of cells of column c; '
+    'df[cols].sum(axis=1) == 0 flags the rows whose cells sum to zero; '
+    'any(mask) is "some row is flagged"; set_index("geo") labels the rows by '
+    'their geo value (cells are integers; 1.0 == 1 is not distinguished)',
+])
+
+
+def _row(ctx, name='i'):
+  return z3.Int(ctx.sym(name))
+
+
+class VRawElig(V):
+  kind = 'rawelig'
+
+  def __init__(self, t):
+    self.t = t
+
+  def flatten(self):
+    return [self.t]
+
+  def py_getattr(self, ex, name, node):
+    if name in ('copy', 'reset_index'):
+      return _VBound(lambda ex_, a, k, n: VRawElig(self.t))
+    if name == 'columns':
+      return VRECols(self)
+    if name == 'geo':
+      return VRECol(self, _fl.colcode('geo'))
+    if name == 'loc':
+      return VRELoc(self)
+    if name == 'set_index':
+      return _VBound(lambda ex_, a, k, n: NONE)
+    ex.unsupported(node, 'raw eligibility frame attribute %s' % name)
+
+  def py_setattr(self, ex, name, value, node):
+    if name == 'geo':
+      return VRawElig(self.t)
+    ex.unsupported(node, 'raw eligibility frame store %s' % name)
+
+  def py_getitem(self, ex, idx, node):
+    if isinstance(idx, VStr):
+      return VRECol(self, _fl.colcode(idx.s))
+    if isinstance(idx, VTuple) and all(isinstance(i, VStr) for i in idx.items):
+      return VRESub(self, [_fl.colcode(i.s) for i in idx.items])
+    ex.unsupported(node, 'raw eligibility frame [%s]' % idx.kind)
+
+  # the validated table this frame denotes
+  def geoset(self, ctx):
+    g, i = z3.Int(ctx.sym('g')), _row(ctx)
+    return z3.Lambda([g], z3.Exists([i], z3.And(
+        i >= 0, i < NROWS(self.t), GEOAT(self.t, i) == g)))
+
+  def colset(self, ctx, col):
+    g, i = z3.Int(ctx.sym('g')), _row(ctx)
+    return z3.Lambda([g], z3.Exists([i], z3.And(
+        i >= 0, i < NROWS(self.t), GEOAT(self.t, i) == g,
+        VALAT(self.t, _fl.colcode(col), i) == 1)))
+
+
+class VRECols(V):
+  kind = 'rawelig.columns'
+
+  def __init__(self, f):
+    self.f = f
+
+  def py_toset(self, ex, node):
+    return VSet(COLS(self.f.t), I)
+
+  def py_contains(self, ex, item, node):
+    if not isinstance(item, VStr):
+      ex.unsupported(node, 'membership of %s in columns' % item.kind)
+    return z3.IsMember(_fl.colcode(item.s), COLS(self.f.t))
+
+  def py_getattr(self, ex, name, node):
+    if name == 'duplicated':
+      return _VBound(lambda ex_, a, k, n: VREDupCols(self.f))
+    ex.unsupported(node, 'columns attribute %s' % name)
+
+  def py_getitem(self, ex, idx, node):
+    return VStr('<column names>')
+
+
+class VREDupCols(V):
+  kind = 'rawelig.dupcols'
+
+  def __init__(self, f):
+    self.f = f
+
+  def py_any(self, ex, node):
+    return VBool(DUPCOL(self.f.t))
+
+
+class VRELoc(V):
+  kind = 'rawelig.loc'
+
+  def __init__(self, f):
+    self.f = f
+
+  def py_getitem_ast(self, ex, sl, env, node):
+    return VRawElig(self.f.t)          # df.loc[:, column names]: same rows
+
+
+class VRECol(V):
+  kind = 'rawelig.col'
+
+  def __init__(self, f, col):
+    self.f = f
+    self.col = col
+
+  def py_getattr(self, ex, name, node):
+    if name == 'astype':
+      return _VBound(lambda ex_, a, k, n: VRECol(self.f, self.col))
+    if name == 'duplicated':
+      t = self.f.t
+
+      def dup(ex_, a, k, n):
+        def pred(c, i):
+          j = _row(c, 'j')
+          return z3.Exists([j], z3.And(j >= 0, j < i,
+                                       GEOAT(t, j) == GEOAT(t, i)))
+        return VREMask(self.f, pred)
+      return _VBound(dup)
+    ex.unsupported(node, 'column attribute %s' % name)
+
+  def py_getitem(self, ex, idx, node):
+    if isinstance(idx, VREMask):
+      return VRESel(self, idx)
+    ex.unsupported(node, 'column[%s]' % idx.kind)
+
+  def cell(self, i):
+    t = self.f.t
+    if self.col.eq(_fl.colcode('geo')):
+      return GEOAT(t, i)
+    return VALAT(t, self.col, i)
+
+  def py_toset(self, ex, node):
+    v, i = z3.Int(ex.ctx.sym('v')), _row(ex.ctx)
+    out = VCellSet(z3.Lambda([v], z3.Exists([i], z3.And(
+        i >= 0, i < NROWS(self.f.t), self.cell(i) == v))), I)
+    out.col = self
+    return out
+
+
+class VCellSet(VSet):
+  """set(df[c]): compared with a literal set cell by cell."""
+
+  def py_compare(self, ex, op, other, node):
+    import ast
+    if isinstance(op, ast.LtE) and isinstance(other, VSet):
+      i = _row(ex.ctx)
+      return VBool(z3.ForAll([i], z3.Implies(
+          z3.And(i >= 0, i < NROWS(self.col.f.t)),
+          z3.IsMember(self.col.cell(i), other.t))))
+    ex.unsupported(node, 'comparison of a cell set')
+
+
+class VREMask(V):
+  kind = 'rawelig.mask'
+
+  def __init__(self, f, pred):
+    self.f = f
+    self.pred = pred       # (ctx, row term) -> Bool
+
+  def py_any(self, ex, node):
+    i = _row(ex.ctx)
+    return VBool(z3.Exists([i], z3.And(i >= 0, i < NROWS(self.f.t),
+                                       self.pred(ex.ctx, i))))
+
+
+class VRESel(V):
+  """column[mask]: the cells of the flagged rows."""
+  kind = 'rawelig.sel'
+
+  def __init__(self, col, mask):
+    self.col = col
+    self.mask = mask
+
+  def py_toset(self, ex, node):
+    v, i = z3.Int(ex.ctx.sym('v')), _row(ex.ctx)
+    out = VSet(z3.Lambda([v], z3.Exists([i], z3.And(
+        i >= 0, i < NROWS(self.col.f.t), self.mask.pred(ex.ctx, i),
+        self.col.cell(i) == v))), I)
+    # non-empty exactly when some row is flagged
+    out.truth = self.mask.py_any(ex, node).t
+    return out
+
+
+class VRESub(V):
+  kind = 'rawelig.sub'
+
+  def __init__(self, f, cols):
+    self.f = f
+    self.cols = cols
+
+  def py_getattr(self, ex, name, node):
+    if name == 'sum':
+      return _VBound(lambda ex_, a, k, n: VRERowSum(self.f, self.cols))
+    ex.unsupported(node, 'sub-frame attribute %s' % name)
+
+
+class VRERowSum(V):
+  kind = 'rawelig.rowsum'
+
+  def __init__(self, f, cols):
+    self.f = f
+    self.cols = cols
+
+  def py_compare(self, ex, op, other, node):
+    import ast
+    if not (isinstance(op, ast.Eq) and isinstance(other, VInt)):
+      ex.unsupported(node, 'row-sum comparison')
+    t, cols = self.f.t, self.cols
+    return VREMask(self.f, lambda c, i: z3.Sum(
+        [VALAT(t, col, i) for col in cols]) == other.t)
+
+
+class TRawElig(Shape):
+  """Raw frame handed to GeoEligibility().  An already validated table (the
+  all-ones default of TBRMMData, or a .loc[list] selection of an accepted
+  table) is coerced to the raw frame it came from: one row per label, cells
+  1 where the label is in the column's set and 0 elsewhere."""
+
+  def fresh(self, ctx, name):
+    v = VRawElig(z3.Const(ctx.sym(name), RawE))
+    ctx.assume(NROWS(v.t) >= 0)
+    return v
+
+  def coerce(self, ctx, v):
+    if isinstance(v, VRawElig):
+      return v
+    if not isinstance(v, pl.VEligTable) or v.by_pos:
+      raise EngineError('GeoEligibility(%s)' % v.kind)
+    raw = self.fresh(ctx, 'raw_of_table')
+    t = raw.t
+    rows = v.labels.elems if v.labels is not None else v.rows
+    i, j = _row(ctx), _row(ctx, 'j')
+    g = z3.Int(ctx.sym('g'))
+    ctx.assume(z3.ForAll([i], z3.Implies(
+        z3.And(i >= 0, i < NROWS(t)), z3.IsMember(GEOAT(t, i), rows))))
+    ctx.assume(z3.ForAll([g], z3.Implies(z3.IsMember(g, rows), z3.Exists(
+        [i], z3.And(i >= 0, i < NROWS(t), GEOAT(t, i) == g)))))
+    ctx.assume(z3.ForAll([i, j], z3.Implies(
+        z3.And(i >= 0, i < j, j < NROWS(t)), GEOAT(t, i) != GEOAT(t, j))))
+    for k in VCOLS:
+      ctx.assume(z3.ForAll([i], z3.Implies(
+          z3.And(i >= 0, i < NROWS(t)),
+          VALAT(t, _fl.colcode(k), i) == z3.If(
+              z3.IsMember(GEOAT(t, i), v.cols[k]), 1, 0))))
+    ctx.assume(z3.Not(DUPCOL(t)))
+    for k in ('geo',) + VCOLS:
+      ctx.assume(z3.IsMember(_fl.colcode(k), COLS(t)))
+    return raw
+
+
+def _elig_coerce(self, ctx, v):
+  """Storing the validated raw frame as .data: the table it denotes."""
+  if isinstance(v, VRawElig):
+    return pl.VEligTable(v.geoset(ctx), {k: v.colset(ctx, k) for k in VCOLS})
+  return v
+
+
+pl.TEligTable.coerce = _elig_coerce
+
+
+def _rejected(s):
+  """The documented reasons for rejecting a frame."""
+  t = unwrap(s.df).t
+  i, j = z3.Int('i!rj'), z3.Int('j!rj')
+  inr = lambda x: z3.And(x >= 0, x < NROWS(t))       # noqa: E731
+  missing = z3.Not(z3.And([z3.IsMember(_fl.colcode(k), COLS(t))
+                           for k in ('geo',) + VCOLS]))
+  dupgeo = z3.Exists([i, j], z3.And(inr(i), inr(j), i < j,
+                                    GEOAT(t, i) == GEOAT(t, j)))
+  bad = z3.Exists([i], z3.And(inr(i), z3.Or([z3.Not(z3.Or(
+      VALAT(t, _fl.colcode(k), i) == 0, VALAT(t, _fl.colcode(k), i) == 1))
+                                             for k in VCOLS])))
+  zero = z3.Exists([i], z3.And(inr(i), z3.Sum(
+      [VALAT(t, _fl.colcode(k), i) for k in VCOLS]) == 0))
+  return z3.Or(missing, DUPCOL(t), dupgeo, bad, zero)
+
+
+def _stored(s):
+  raw = unwrap(s.df)
+  tbl = unwrap(s.self.data)
+  ctx = s.ctx
+  return z3.And(tbl.rows == raw.geoset(ctx),
+                *[tbl.cols[k] == raw.colset(ctx, k) for k in VCOLS])
+
+
+def _accepted_inv(s):
+  """Class invariant of an accepted table: every row label carries at least
+  one flag (no all-zero row) and flags only sit on row labels."""
+  tbl = unwrap(s.self.data)
+  u = z3.SetUnion(z3.SetUnion(tbl.cols['control'], tbl.cols['treatment']),
+                  tbl.cols['exclude'])
+  return tbl.rows == u
+
+
+spec.contract(
+    'GeoEligibility.__init__', params={'df': TRawElig()},
+    modifies=['self.*'], props=('C16', 'C15'),
+    raises={'ValueError': (
+        'a column is missing or repeated, a geo value occurs twice, a cell is '
+        'not 0/1, or a row is all zeros', _rejected)},
+    ensures=[
+        ('C16 the stored table has one row per geo value, each column set '
+         'holds the geos whose cell is 1', _stored),
+        ('C16 an accepted table has no all-zero row (every row label is in '
+         'some column set)', _accepted_inv),
+    ])
+
+FUNCTIONS.append('GeoEligibility.__init__')
